@@ -316,10 +316,10 @@ def optics_configs(tier, prop):
              maxtotal=6, boundary=True, modulus=25),
         dict(name="palette", leaf=["bool", "int16", "string", "[0]int64", "[3]int8", "[]byte", "any", "*int"], emb=emb, names="uniq",
              maxfields=3, maxdepth=2, maxtotal=4, modulus=25),
-        dict(name="names", leaf=["int8", "int16"], emb=["val", "ptr"], names="pool", tags="all", maxfields=3, maxdepth=3,
-             maxtotal=3, modulus=100),
+        dict(name="names", leaf=["int8"], emb=["val", "ptr"], names="pool", tags="all", maxfields=3, maxdepth=3,
+             maxtotal=3, modulus=40),
         dict(name="named", leaf=["int8", "int64"], emb=["val", "ptr"], named=True, names="pos", maxfields=3, maxdepth=3, maxsub=2,
-             maxtotal=5, modulus=40),
+             maxtotal=5, modulus=25),
     ]
 
 
